@@ -24,6 +24,7 @@ package main
 //   chk <pred> tag=.. ...      the implementation's observation; the Lean predicate is the judge
 
 import (
+	"crypto/sha256"
 	"encoding/hex"
 	"errors"
 	"fmt"
@@ -68,10 +69,22 @@ type bworld struct {
 	credits map[string][]string // prophecy id -> observed credits "recv|denom|amt"
 	credAll []string            // all observed credits "denom|amt"
 	minted  []string            // denominations observed entering the supply through the credit of a lock claim
+	msgClaims map[string][]string // prophecy id -> "validator=content" of every accepted claim MESSAGE, content from the message's own fields
+	storeFirst string            // digest of the oracle + ethbridge store bytes at the end of the first execution of the current history
 	finalSeen map[string]string // prophecy id -> its dump when it was first observed finalised (SUCCESS / FAILED)
 	finalIds  []string
 	locks   []string            // successful locks "denom|amt"
 	burns   []string            // successful burns "denom|amt"
+}
+
+// userAddr: the address of user account alias i (i >= 3)
+func userAddr(i int) sdk.AccAddress {
+	b := make([]byte, 20)
+	for j := range b {
+		b[j] = byte(0xA0 + i)
+	}
+	b[19] = byte(i)
+	return sdk.AccAddress(b)
 }
 
 func newBWorld() *bworld {
@@ -83,12 +96,7 @@ func newBWorld() *bworld {
 	w.accts[1] = authtypes.NewModuleAddress("clp")
 	w.accts[2] = authtypes.NewModuleAddress(authtypes.FeeCollectorName)
 	for i := 3; i < bNAccts; i++ {
-		b := make([]byte, 20)
-		for j := range b {
-			b[j] = byte(0xA0 + i)
-		}
-		b[19] = byte(i)
-		w.accts[i] = sdk.AccAddress(b)
+		w.accts[i] = userAddr(i)
 	}
 	for i := 0; i < bNVals; i++ {
 		seed := make([]byte, 32)
@@ -110,6 +118,7 @@ func (w *bworld) reset() {
 	w.credAll = nil
 	w.minted = nil
 	w.finalSeen = map[string]string{}
+	w.msgClaims = map[string][]string{}
 	w.finalIds = nil
 	w.locks = nil
 	w.burns = nil
@@ -156,6 +165,32 @@ func (w *bworld) valStr(tok string) string {
 	s := w.vals[i].String()
 	if up {
 		return strings.ToUpper(s)
+	}
+	return s
+}
+
+// claim symbols in generated lines and dumps: as they are when made of letters, digits, '.', '/', '-' only, otherwise
+// '%' + hex of the bytes (quotes, commas, braces … would break the line format)
+func encodeSym(s string) string {
+	safe := s != ""
+	for _, c := range []byte(s) {
+		if !(c >= 'a' && c <= 'z' || c >= 'A' && c <= 'Z' || c >= '0' && c <= '9' || c == '.' || c == '/' || c == '-') {
+			safe = false
+		}
+	}
+	if safe {
+		return s
+	}
+	return "%" + hex.EncodeToString([]byte(s))
+}
+
+func decodeSym(s string) string {
+	if strings.HasPrefix(s, "%") {
+		b, err := hex.DecodeString(s[1:])
+		if err != nil {
+			panic("bad symbol " + s)
+		}
+		return string(b)
 	}
 	return s
 }
@@ -271,7 +306,7 @@ func contentCanon(w *bworld, s string) string {
 		amt = c.Amount.String()
 	}
 	tok := gethCommon.Address(c.TokenContractAddress)
-	return fmt.Sprintf("%s|%s|%s|%s|%d", w.acctAlias(c.CosmosReceiver), amt, c.Symbol, hex.EncodeToString(tok[:]), int32(c.ClaimType))
+	return fmt.Sprintf("%s|%s|%s|%s|%d", w.acctAlias(c.CosmosReceiver), amt, encodeSym(c.Symbol), hex.EncodeToString(tok[:]), int32(c.ClaimType))
 }
 
 func statusNum(t oracletypes.StatusText) string {
@@ -524,7 +559,7 @@ func ethClaimOf(w *bworld, t []string) *ethtypes.EthBridgeClaim {
 		EthereumChainId:       chain,
 		BridgeContractAddress: "0x30753E4A8aad7F8597332E813735Def5dD395028",
 		Nonce:                 nonce,
-		Symbol:                t[6],
+		Symbol:                decodeSym(t[6]),
 		TokenContractAddress:  t[7],
 		EthereumSender:        t[3],
 		CosmosReceiver:        w.acctStr(t[4]),
@@ -688,6 +723,32 @@ func (x *bexec) chkWlView() {
 	x.emit(fmt.Sprintf("chk wlview tag=oracle.whitelist.keeper-view-equals-store view=%s stored=%s", view, stored), "true", "chk.wlview", view != "-")
 }
 
+// storeDigest: sha256 over every key and value (length-prefixed) of the oracle and the ethbridge store, in key order
+func (w *bworld) storeDigest() string {
+	hsh := sha256.New()
+	for _, name := range []string{oracletypes.StoreKey, ethtypes.StoreKey} {
+		it := w.ctx.KVStore(w.app.GetKey(name)).Iterator(nil, nil)
+		for ; it.Valid(); it.Next() {
+			fmt.Fprintf(hsh, "%s %d %d ", name, len(it.Key()), len(it.Value()))
+			hsh.Write(it.Key())
+			hsh.Write(it.Value())
+		}
+		it.Close()
+	}
+	return hex.EncodeToString(hsh.Sum(nil))
+}
+
+// endOfExecution: the committed bytes of the stores must be the same in every execution of the same history
+func (x *bexec) endOfExecution(rep int) {
+	w := x.w
+	d := w.storeDigest()
+	if rep == 0 {
+		w.storeFirst = d
+		return
+	}
+	x.emit(fmt.Sprintf("chk storebytes tag=store.bytes-equal-across-executions first=%s now=%s", w.storeFirst, d), "true", "chk.storebytes", true)
+}
+
 // dumpWlStored reads the whitelist straight from the oracle store
 func (w *bworld) dumpWlStored() string {
 	bz := w.ctx.KVStore(w.app.GetKey(oracletypes.StoreKey)).Get(oracletypes.WhiteListValidatorPrefix)
@@ -805,6 +866,16 @@ func (x *bexec) execTx(line, kind string, t []string) {
 		}
 		x.emit(line, ans, hcls, cls == "ok")
 		x.chkClaim(t, id, pb, foundB, pa, foundA, cls, balB, supB)
+		// C06: what was credited against the contents of the accepted claim messages (not the stored final claim)
+		if cls == "ok" {
+			v, _ := splitSp(t[0])
+			recv, _ := splitSp(t[4])
+			w.msgClaims[id] = append(w.msgClaims[id], fmt.Sprintf("%d=%d|%s|%s|%s|%s", v, recv, t[5], t[6], ethAddrBytes(t[7]), t[8]))
+			balA, supA := w.bankView()
+			x.emit(fmt.Sprintf("chk creditmsg tag=ethbridge.credit.matches-claim-messages vals=%s wl=%s msgs=%s balb=%s bala=%s supb=%s supa=%s",
+				w.dumpVals(), w.dumpWlStored(), listOrDash(w.msgClaims[id]), dumpMap(balB), dumpMap(balA), dumpMap(supB), dumpMap(supA)),
+				"true", "chk.creditmsg", pa.Status.Text == oracletypes.StatusText_STATUS_TEXT_SUCCESS)
+		}
 		// C07: an accepted claim that turned the prophecy SUCCESS registers exactly the credited pegged denomination
 		if cls == "ok" && foundA && pa.Status.Text == oracletypes.StatusText_STATUS_TEXT_SUCCESS &&
 			(!foundB || pb.Status.Text == oracletypes.StatusText_STATUS_TEXT_PENDING) {
